@@ -175,16 +175,11 @@ Definition claim_race (c : buscfg) (st : wstate) (x y : btx) : Prop :=
   silent_for c st y (t_lost_bits c (tx_sender y)) /\ online_for c y (t_lost_bits c (tx_sender y)) /\
   (unsynchronised st x \/ unsynchronised st y).
 
-(* KNOWN FINDING F12 (status finding): after accepting the token a station that has nothing to send
-   needs THREE polls before its first byte is on the wire (accept; UseToken -> PassToken; transmit),
-   so the previous holder's slot timer can expire first and its retry collides, although the poll
-   periods are inside the property's class P <= Tslot/4.  The known class: schedules (largest poll
-   period pmax, in us) with 3 P + 44 bit (+ 4 us of clock rounding) >= Tslot.  Only scenarios in this
-   class are excused by the driver; outside it the hand-over completes inside the slot time. *)
-Definition known_handover (c : buscfg) (pmax_us : Z) : Prop :=
-  c_slot c * M <= 3 * pmax_us * rate c + 44 * M + 4 * rate c.
-Definition known_handover_b (c : buscfg) (pmax_us : Z) : bool :=
-  c_slot c * M <=? 3 * pmax_us * rate c + 44 * M + 4 * rate c.
+(* Finding F20 (earlier F12 of the bus layer: a token hand-over took THREE polls of a receiver that has
+   nothing to send, so that for 3 P + 44 bit >= Tslot the previous holder's retry collided) is repaired in
+   the crate: the receiver passes the token in the poll that finds nothing to send, the hand-over takes
+   two polls (2 P + 44 bit <= Tslot for every P <= Tslot/4 and Tslot >= 100 bit).  There is no known
+   class for it any more; corpus/bus/f20.cases are regression witnesses that must pass. *)
 
 (* ------------------------------------------------------------------ C02 / C06: rotations *)
 
